@@ -48,6 +48,13 @@ func NewNativeEnv() *NativeEnv {
 	f("go/types.NewStruct", types.NewStruct)
 	f("go/types.NewTuple", types.NewTuple)
 	f("go/types.NewSignature", types.NewSignature)
+	f("go/types.NewChan", types.NewChan)
+	f("go/types.NewInterfaceType", types.NewInterfaceType)
+	f("go/types.NewParam", types.NewParam)
+	f("strings.Join", strings.Join)
+	f("strings.Repeat", strings.Repeat)
+	f("strings.TrimSpace", strings.TrimSpace)
+	f("strings.Fields", strings.Fields)
 	f("strconv.Itoa", strconv.Itoa)
 	f("strconv.Quote", strconv.Quote)
 	f("strings.HasPrefix", strings.HasPrefix)
